@@ -83,6 +83,7 @@ type Session struct {
 	anc      map[*ssa.BasicBlock]map[*ssa.BasicBlock]bool
 	mu       sync.Mutex
 	trackAlloc bool
+	usedContracts map[string]bool // contracts of callees applied while encoding this function (func keys and iface keys)
 	boxedSlices map[string]boxedSlice
 	factWeak   []string // per fact: "" or the type key of a global type-invariant axiom (relevant only through that type's fields)
 	weakKey    string
@@ -371,7 +372,10 @@ func (s *Session) relevantFacts(o *Obligation) []string {
 			}
 			hit := len(infos[i].syms) == 0
 			marker := ""
-			if weak[i] != "" {
+			if weak[i] == "$bytes" {
+				// a callee's allocation bound matters only where the allocation counter does
+				marker = "bytes"
+			} else if weak[i] != "" {
 				// the invariant of a type matters only where an object of that type is looked into
 				marker = "f:" + weak[i] + "."
 			}
